@@ -69,6 +69,7 @@ static void wake_waiters (nsync_dll_list_ to_wake_list, int all_readers) {
 				 ~MU_ALL_FALSE)) {
 
 			uint32_t set_on_release = 0;
+			uint32_t clear_on_release = MU_SPINLOCK;
 
 			/* For any waiter that should be transferred, rather
 			   than woken, move it from to_wake_list to pmu->waiters. */
@@ -126,10 +127,21 @@ static void wake_waiters (nsync_dll_list_ to_wake_list, int all_readers) {
 				set_on_release |= MU_WRITER_WAITING;
 			}
 
-			/* release *pmu's spinlock  (MU_WAITING was set by CAS above) */
+			/* MU_WAITING was set by the CAS above, before it was known
+			   whether any waiter would be transferred.  If none was
+			   and nobody else is queued, take it back:  a waiting bit
+			   over an empty queue sends a later unlock down the slow
+			   path, where it gives up the lock before it has finished
+			   with *pmu although no queued thread is left to keep *pmu
+			   alive.  */
+			if (nsync_dll_is_empty_ (pmu->waiters)) {
+				clear_on_release |= MU_WAITING;
+			}
+
+			/* release *pmu's spinlock */
 			old_mu_word = ATM_LOAD (&pmu->word);
 			while (!ATM_CAS_REL (&pmu->word, old_mu_word,
-					     (old_mu_word|set_on_release) & ~MU_SPINLOCK)) {
+					     (old_mu_word|set_on_release) & ~clear_on_release)) {
 				old_mu_word = ATM_LOAD (&pmu->word);
 			}
 		}
